@@ -553,6 +553,7 @@ func specBytesEq8(a, b []byte) bool {
 //@ requires regBits&0xC7 == 0
 //@ ensures[reg] err == nil ==> modrmByte&0x38 == regBits
 //@ ensures[ea]  err == nil ==> specEAOK(mem, specMode(bitMode), modrmByte, sibByte, dispBytes)
+//@ ensures[size@C03] err == nil && ng_operand.SpecAddrSize(mem, specMode(bitMode)) != 0 ==> len(dispBytes) == ng_operand.SpecDispBytes(mem, specMode(bitMode)) && specHasSIB(specAddrSize(mem, specMode(bitMode)), modrmByte) == (ng_operand.SpecSibBytes(mem, specMode(bitMode)) == 1)
 
 //@ func handleJcc
 //@ props C04 C16
